@@ -13,10 +13,12 @@ props = [json.loads(l) for l in open(os.path.join(V, "properties.jsonl"))]
 NA_REASONS = json.load(open(os.path.join(V, "tools", "na_reasons.json"))) if os.path.exists(os.path.join(V, "tools", "na_reasons.json")) else {}
 checks = []
 na = []
+CLAIMED = set(open(os.path.join(V, "tools", "claimed.txt")).read().split())
+LEVELS = {"exploration", "fault_enumeration", "model_checking", "proof", "translation_validation", "other"}
 for p in props:
     pid = p["id"]
     path = os.path.join(V, "vlib", "props", pid.lower() + ".py")
-    if os.path.exists(path):
+    if os.path.exists(path) and pid in CLAIMED:
         m = importlib.import_module("vlib.props." + pid.lower())
         checks.append({
             "property_id": pid,
@@ -26,7 +28,7 @@ for p in props:
             "replay_cmd_template": f"./check {pid} --replay {{path}}",
             "engine": "lean4-model+correspondence",
             "level_claimed": {
-                "category": getattr(m, "LEVEL", "proof"),
+                "category": getattr(m, "LEVEL", "proof") if getattr(m, "LEVEL", "proof") in LEVELS else "other",
                 "text": getattr(m, "LEVEL_TEXT", m.__doc__ or ""),
                 "design_ref": f"DESIGN.md section 8, {pid}",
             },
